@@ -6,21 +6,11 @@ import subprocess
 
 V = os.path.dirname(os.path.dirname(os.path.abspath(__file__)))
 
-CHECKS = {
-    "C17": dict(
-        text="Machine-checked theorems (Coq 8.16.1) over an executable model of the frame codec (golib readMsg/Pack), the "
-             "schema-driven JSON object codec and the first-message dispatch: round trip, decoder accepts exactly the encoder's image, "
-             "allocation <= 10240 and no over-read on every input, registry bijective and wire schema stable (reflective over tables "
-             "regenerated from pkg/msg/msg.go on every run). The model is tied to the code by the translator (T1) and by a differential "
-             "run of real msg.WriteMsg/ReadMsg against the model on generated and adversarial inputs.",
-        note="Trusted: Coq kernel+VM; translator T1 (go/ast); harness transcription; encoding/json text layer is an oracle with the law "
-             "parse(render o)=Some o; golib framing lives in the module cache and is modelled by hand (Model/Frame.v), compared on every run. "
-             "The disconnect-without-affecting-other-sessions clause is proved for the dispatch function and exercised end-to-end by the system driver.",
-        technique="Coq proof (induction/reflection) + translator-regenerated tables + differential correspondence via vm_compute",
-        design="4/C17"),
-}
+import sys
+sys.path.insert(0, os.path.dirname(os.path.abspath(__file__)))
+from props import MANIFESTS as CHECKS  # noqa: E402
+from notapplicable import NOT_APPLICABLE  # noqa: E402
 
-NOT_APPLICABLE = []
 
 
 def main():
